@@ -58,6 +58,9 @@ def c24(tier, seed):
     ]
     if not q:
         jobs.append(J(KEYS, "VerifK24aUniqueDecoding", k=2, str=2, timeout_ms=900000))
+    # K24b: the compositions on top of the Builder (PbValue, Tuple, invariant / check / read keys)
+    from specs import validgroup
+    jobs += validgroup.c24b(tier, seed)
     return jobs
 
 
@@ -83,7 +86,7 @@ SPEC = {
         "level_text": "bounded symbolic execution of the cache-key Builder: two arbitrary sequences of Encode* calls (kinds and payloads symbolic, merged into one query) that yield the same bytes are the same sequence with equal payloads (unique decodability of the tag/length framing); uvarint length prefixes are prefix-free for all pairs of uint64; the hex rendering of keys is injective",
         "level_note": "bounds: sequences of <= 1 (quick) / 2 (thorough) fields per side with strings <= 2 bytes and counts 0..200 (crossing the 1/2-byte uvarint boundary); hex: keys <= 3/5 bytes; digest collisions excluded by the property; trusted: engine semantics, z3",
         "assumptions": ["slices.Grow only affects capacity", "merging byte slices with different backing arrays at control-flow joins copies them (no aliasing is relied on by the Builder)"],
-        "outside": ["PbValue/Tuple/CheckCacheKey compositions (K24b) until registered", "xxhash digest collisions"],
+        "outside": ["xxhash digest collisions (pre-digest bytes are compared)", "strings, value trees and filter lists larger than the stated bounds"],
     },
     "C27": {
         "jobs": c27,
@@ -118,3 +121,18 @@ SPEC = {
         "outside": ["strings longer than the stated bounds"],
     },
 }
+
+
+def _merge_c24b():
+    # the K24b text (level, bounds, assumptions) lives next to its job list in validgroup.py
+    from specs import validgroup
+    b = getattr(validgroup, "C24B", None)
+    if not b:
+        return
+    s = SPEC["C24"]
+    s["level_text"] += ". " + b["level_text"]
+    s["level_note"] += "; " + b["level_note"]
+    s["assumptions"] = list(s["assumptions"]) + list(b.get("assumptions", []))
+
+
+_merge_c24b()
